@@ -23,6 +23,12 @@
    edited in place / copied); each solve is judged by the oracle of 2 on the argument values at call time; no
    argument may be changed by a call (bit-for-bit snapshots, also on routes 1 and 2) and no earlier result may
    change afterwards.
+6. Twins and autograd state: "every LTI or LTV system" includes a system object obtained from another one by
+   copy.deepcopy / pickle / torch.save+load / load_state_dict (taken after the original was used, so its clock is
+   not 0; the original stays alive and is used in between), and a solver object copied between two solves; "any
+   x_init, any u_traj" includes tensors that require grad, Q / p / system matrices that require grad, and calls
+   under torch.no_grad() / inference_mode().  None of this may change the values returned: general route,
+   MPC cases and sessions rotate through these configurations and are judged by the same oracle of 2.
 A scalar model/implementation mismatch is searched with the oracle of 2."""
 import math
 from ..common import *
@@ -31,6 +37,7 @@ RULE = ('scalar route: history = (system kind/table, t0, [solve(dt, Q_t, p_t, x_
         'model over Q vs float64 within TOL_MODEL relative, time/stepper/iterations exact; directed block = every branch of the model '
         '(T=0,1,2, LTI/LTV, c1 None/Some, fresh/stale time, u_traj None/given/wrong length, dt 1/2, Cholesky raising at the terminal / an inner step, '
         'asymmetric Q, MPC stopping by tol / budget / patience, second MPC call); general route: property oracle in 400-bit arithmetic; '
+        'twins (deepcopy / pickle / torch.save / state_dict of the system, copies of the solver) and autograd state (requires_grad on x_init, u_traj, Q, p, A, B, c1; no_grad; inference_mode) judged by the same oracle; '
         'non-trivial = horizon >= 2 (the recursion has a cross term); distinct by full input')
 
 EPS = 2.0 ** -52
@@ -130,6 +137,9 @@ def classes():
         def observation(self, state, input, t=None):
             return state
 
+    for k in (TabLTV, Pend, Cubic):        # module-level names: the system objects can be pickled / torch.save()d
+        k.__qualname__ = k.__name__
+        globals()[k.__name__] = k
     _CLS.update(pp=pp, torch=torch, TabLTV=TabLTV, Pend=Pend, Cubic=Cubic)
     return _CLS
 
@@ -139,33 +149,116 @@ def T64(x):
     return torch.tensor(x, dtype=torch.float64)
 
 
+# ---------------------------------------------------------------------------------------------
+# twins of objects and autograd state of the arguments (part 6 of the module docstring)
+TWINS = ['deepcopy', 'pickle', 'torch.save', 'state_dict']
+GRAD_MODES = ['grad', 'no_grad', 'inference']
+
+
+def twin_of(obj, how):
+    """an independent copy of a system / solver object, the way users obtain one"""
+    import copy, pickle, io
+    torch = classes()['torch']
+    if how == 'pickle':
+        return pickle.loads(pickle.dumps(obj))
+    if how == 'torch.save':
+        bio = io.BytesIO()
+        torch.save(obj, bio)
+        bio.seek(0)
+        return torch.load(bio, weights_only=False)
+    return copy.deepcopy(obj)
+
+
+def grad_ctx(mode):
+    torch = classes()['torch']
+    return {'no_grad': torch.no_grad, 'inference': torch.inference_mode}.get(mode, torch.enable_grad)()
+
+
+def set_grad(t, flag):
+    """the caller marks a tensor he created as requiring grad (or not); results of earlier calls keep their graph"""
+    if t is not None and t.is_leaf and t.is_floating_point() and not t.is_inference():
+        t.requires_grad_(bool(flag))
+    return t
+
+
+def drive(system, k, nb, ns, nc):
+    """k plain calls of a system object (advance its clock, fill its state / input attributes)"""
+    torch = classes()['torch']
+    with torch.no_grad():
+        for j in range(k):
+            system(torch.full((nb, ns), 0.25 * (j + 1), dtype=torch.float64), torch.full((nb, nc), -0.5, dtype=torch.float64))
+
+
+def cfg_text(P, S=None):
+    out = []
+    tw = P.get('twin')
+    if tw:
+        out.append('system object = %s twin of an object called %d time(s) before%s' % (tw['how'], tw.get('pre', 0), ', original used in between' if tw.get('inter') else ''))
+    if P.get('grad'):
+        out.append('system tensors requiring grad: %s' % ','.join(P['grad']))
+    gr = (S or {}).get('grad')
+    if gr:
+        out.append('requires_grad on %s, call under %s' % (','.join(n for n in ('x0', 'u', 'Q', 'p') if gr.get(n)) or 'nothing', gr.get('mode', 'grad')))
+    return (' [' + '; '.join(out) + ']') if out else ''
+
+
 def build_system(P, lay=None, held=None):
-    """P: dict(kind 'lti'|'ltv', N, A, B, c1, t0); lti: A [nb][ns][ns]; ltv: A [nb][N][ns][ns].
-    lay: memory layouts of A, B, c1 (layout_tensor); held: receives name -> (tensor given to the constructor, its base)"""
+    """P: dict(kind 'lti'|'ltv', N, A, B, c1, t0[, grad, twin]); lti: A [nb][ns][ns]; ltv: A [nb][N][ns][ns].
+    lay: memory layouts of A, B, c1 (layout_tensor); held: receives name -> (tensor given to the constructor, its base).
+    P['grad']: names among A, B, c1 whose tensors require grad.  P['twin'] = dict(how, pre, inter): the object returned is a
+    twin (TWINS) of an object built from P that was called `pre` times before; the original is kept alive (attribute
+    _c14_orig of the twin, not a submodule)."""
     c = classes()
     pp, torch = c['pp'], c['torch']
     lay = lay or {}
-    A, Ab = layout_tensor(P['A'], lay.get('A', 'contig'))
-    B, Bb = layout_tensor(P['B'], lay.get('B', 'contig'))
-    c1, cb = (None, None) if P['c1'] is None else layout_tensor(P['c1'], lay.get('c1', 'contig'))
-    if held is not None:
-        held.update(A=(A, Ab), B=(B, Bb))
-        if c1 is not None:
-            held['c1'] = (c1, cb)
-    ns, nc = A.shape[-1], B.shape[-1]
-    if P['kind'] == 'lti':
-        nb = A.shape[0]
-        C = torch.eye(ns, dtype=torch.float64).repeat(nb, 1, 1)
-        D = torch.zeros(nb, ns, nc, dtype=torch.float64)
-        s = pp.module.LTI(A, B, C, D, c1)
-    else:
+    gnames = P.get('grad') or []
+
+    def make(hold, lay):
+        A, Ab = layout_tensor(P['A'], lay.get('A', 'contig'))
+        B, Bb = layout_tensor(P['B'], lay.get('B', 'contig'))
+        c1, cb = (None, None) if P['c1'] is None else layout_tensor(P['c1'], lay.get('c1', 'contig'))
+        set_grad(A, 'A' in gnames), set_grad(B, 'B' in gnames), set_grad(c1, 'c1' in gnames)
+        if hold is not None:
+            hold.update(A=(A, Ab), B=(B, Bb))
+            if c1 is not None:
+                hold['c1'] = (c1, cb)
+        ns, nc = A.shape[-1], B.shape[-1]
+        if P['kind'] == 'lti':
+            nb = A.shape[0]
+            C = torch.eye(ns, dtype=torch.float64).repeat(nb, 1, 1)
+            D = torch.zeros(nb, ns, nc, dtype=torch.float64)
+            return pp.module.LTI(A, B, C, D, c1), (nb, ns, nc)
         nb, N = A.shape[0], A.shape[1]
         C = torch.eye(ns, dtype=torch.float64).repeat(nb, N, 1, 1)
         D = torch.zeros(nb, N, ns, nc, dtype=torch.float64)
-        s = c['TabLTV'](A, B, C, D, c1, N)
+        return c['TabLTV'](A, B, C, D, c1, N), (nb, ns, nc)
+    tw = P.get('twin')
+    if not tw:
+        s, _ = make(held, lay)
+    else:
+        orig, dims = make(None if tw['how'] == 'state_dict' else held, lay)
+        drive(orig, tw.get('pre', 0), *dims)
+        if tw['how'] == 'state_dict':
+            s, _ = make(held, {})        # load_state_dict copies into the buffers: they must not overlap themselves
+            s.load_state_dict(orig.state_dict())
+        else:
+            s = twin_of(orig, tw['how'])
+            if held is not None:      # the tensors the twin works with are its own buffers
+                for n in list(held):
+                    held[n] = (getattr(s, '_' + n), getattr(s, '_' + n))
+        s.__dict__['_c14_orig'] = (orig, dims, bool(tw.get('inter')))
     if P.get('t0', 0) != 0:
         s.reset(P['t0'])
     return s
+
+
+def use_original(system, k):
+    """the original of a twin is used by its owner between two solves on the twin"""
+    o = system.__dict__.get('_c14_orig')
+    if o and o[2]:
+        drive(o[0], k, *o[1])
+        if k % 2:
+            o[0].reset(k + 3)
 
 
 def layout_tensor(vals, layout):
@@ -206,11 +299,14 @@ def run_lqr(system, S):
     if S['T'] == 0:
         torch = c['torch']
         Q, p = torch.zeros(x0.shape[0], 0, 2, 2, dtype=torch.float64), torch.zeros(x0.shape[0], 0, 2, dtype=torch.float64)
+    gr = S.get('grad') or {}
+    set_grad(Q, gr.get('Q')), set_grad(p, gr.get('p')), set_grad(x0, gr.get('x0')), set_grad(u, gr.get('u'))
     args = [('Q', Q), ('p', p), ('x_init', x0)] + ([] if u is None else [('u_traj', u)])
-    snap = [(n, t, t.clone()) for n, t in args]
+    snap = [(n, t, t.detach().clone()) for n, t in args]
     try:
-        lqr = pp.module.LQR(system, Q, p, S['T'])
-        x, uu, cost = lqr(x0, S.get('dt', 1), u)
+        with grad_ctx(gr.get('mode', 'grad')):
+            lqr = pp.module.LQR(system, Q, p, S['T'])
+            x, uu, cost = lqr(x0, S.get('dt', 1), u)
     except Exception as e:      # noqa
         return dict(raised='%s: %s' % (type(e).__name__, str(e)[:120]), t=int(system.systime))
     torch = c['torch']
@@ -463,7 +559,8 @@ def _take(spec, prev_arg, prev_ret):
     if src in ('obj', 'obj-edit') and prev_arg is not None and prev_arg[0] is not None:
         t, bs = prev_arg
         if src == 'obj-edit':
-            apply_edit(t, bs, spec['edit'])
+            with classes()['torch'].no_grad():        # a leaf that requires grad is edited in place under no_grad
+                apply_edit(t, bs, spec['edit'])
         return t, bs
     if src == 'same' and prev_arg is not None and prev_arg[0] is not None:
         t = prev_arg[0].clone()
@@ -475,7 +572,8 @@ def _take(spec, prev_arg, prev_ret):
         if src == 'ret-edit':
             if any(sd == 0 and n > 1 for sd, n in zip(prev_ret.stride(), prev_ret.shape)):
                 prev_ret = prev_ret.clone()       # a self-overlapping result cannot be edited in place: the caller edits a copy
-            apply_edit(prev_ret, prev_ret, spec['edit'])
+            with classes()['torch'].no_grad():
+                apply_edit(prev_ret, prev_ret, spec['edit'])
         return prev_ret, prev_ret
     return layout_tensor(spec['vals'], spec.get('layout', 'contig'))
 
@@ -488,8 +586,10 @@ def describe_step(st):
                'ret': 'the inputs returned by the previous call (same tensor)', 'ret-copy': 'a copy of the inputs returned by the previous call',
                'ret-edit': 'the inputs returned by the previous call after the caller edited them in place (%s)' % sp.get('edit')}[src]
         return txt
-    return 'x_init = %s; u_traj = %s%s; call form %s' % (d(st['x0'], 'x_init'), d(st['u'], 'u_traj'),
-                                                        '' if st.get('reset') is None else '; system.reset(%d) before' % st['reset'], st.get('form', 'pos'))
+    gr = st.get('grad')
+    gtxt = '' if not gr else '; requires_grad on %s, call under %s' % (','.join(n for n in ('x0', 'u') if gr.get(n)) or 'nothing', gr.get('mode', 'grad'))
+    return 'x_init = %s; u_traj = %s%s; call form %s%s' % (d(st['x0'], 'x_init'), d(st['u'], 'u_traj'),
+                                                          '' if st.get('reset') is None else '; system.reset(%d) before' % st['reset'], st.get('form', 'pos'), gtxt)
 
 
 def run_session(case, upto=None):
@@ -502,6 +602,9 @@ def run_session(case, upto=None):
     held = {}
     system = build_system(case['P'], lay, held)
     held['Q'], held['p'] = layout_tensor(case['Q'], lay.get('Q', 'contig')), layout_tensor(case['p'], lay.get('p', 'contig'))
+    gradc = case.get('gradc') or []
+    set_grad(held['Q'][0], 'Q' in gradc), set_grad(held['p'][0], 'p' in gradc)
+    twin_at = case.get('twin_at')            # dict(step, how): the SOLVER object is replaced by a twin of itself before that step
     P = dict(case['P'], A=held['A'][0].tolist(), B=held['B'][0].tolist(), c1=None if 'c1' not in held else held['c1'][0].tolist())
     Qv, pv = held['Q'][0].tolist(), held['p'][0].tolist()
     if api == 'mpc':
@@ -511,32 +614,47 @@ def run_session(case, upto=None):
     recs, kept = [], []
     prev = dict(x0=None, u=None, ret=None)
     for si, st in enumerate(case['steps'][:upto]):
+        if twin_at and twin_at['step'] == si:
+            old = system
+            obj = twin_of(obj, twin_at['how'])
+            system = obj.lqr.system if api == 'mpc' else obj.system
+            if not system.__dict__.get('_c14_orig'):       # the owner of the original goes on using it
+                system.__dict__['_c14_orig'] = (old, (held['A'][0].shape[0], held['A'][0].shape[-1], held['B'][0].shape[-1]), True)
+            for n in ('A', 'B', 'c1', 'Q', 'p'):       # the tensors the twin works with are its own
+                if n in held:
+                    t = getattr(system, '_' + n) if n in ('A', 'B', 'c1') else getattr(obj.lqr if api == 'mpc' else obj, n)
+                    held[n] = (t, t)
+        if si > 0:
+            use_original(system, si)
         if st.get('reset') is not None:
             system.reset(st['reset'])
+        gr = st.get('grad') or {}
         x0 = _take(st['x0'], prev['x0'], None)
         u = _take(st['u'], prev['u'], prev['ret'])
+        set_grad(x0[0], gr.get('x0')), set_grad(u[0], gr.get('u'))
         for ent in kept:                       # the caller's own in-place edit of a returned tensor is not the solver's doing
             if ent[2] is u[0] or ent[2] is x0[0]:
-                ent[3] = ent[2].clone()
+                ent[3] = ent[2].detach().clone()
         args = dict(held, x_init=x0)
         if u[0] is not None:
             args['u_traj'] = u
-        snap = [(n, t, t.clone(), bs, bs.clone()) for n, (t, bs) in args.items()]
+        snap = [(n, t, t.detach().clone(), bs, bs.detach().clone()) for n, (t, bs) in args.items()]
         tb = int(system.systime)
         S = dict(T=T, Q=Qv, p=pv, tile=case.get('tile', False), x0=x0[0].tolist(), u=None if u[0] is None else u[0].tolist(), dt=1)
         rec = dict(S=S, tb=tb, step=si)
         form = st.get('form', 'pos')
         try:
-            if api == 'mpc':
-                out = obj(1, x0[0], u_init=u[0]) if form == 'kw' else (obj(1, x0[0]) if (form == 'bare' and u[0] is None) else obj(1, x0[0], u[0]))
-            elif form == 'kw':
-                out = obj(x0[0], dt=1, u_traj=u[0])
-            elif form == 'bare' and u[0] is None:
-                out = obj(x0[0])
-            elif form == 'mixed':
-                out = obj(x0[0], 1, u_traj=u[0])
-            else:
-                out = obj(x0[0], 1, u[0])
+            with grad_ctx(gr.get('mode', 'grad')):
+                if api == 'mpc':
+                    out = obj(1, x0[0], u_init=u[0]) if form == 'kw' else (obj(1, x0[0]) if (form == 'bare' and u[0] is None) else obj(1, x0[0], u[0]))
+                elif form == 'kw':
+                    out = obj(x0[0], dt=1, u_traj=u[0])
+                elif form == 'bare' and u[0] is None:
+                    out = obj(x0[0])
+                elif form == 'mixed':
+                    out = obj(x0[0], 1, u_traj=u[0])
+                else:
+                    out = obj(x0[0], 1, u[0])
             x, uu, cost = out
         except Exception as e:      # noqa
             rec['raised'] = '%s: %s' % (type(e).__name__, str(e)[:120])
@@ -546,20 +664,35 @@ def run_session(case, upto=None):
         rec['changed'] = ['%s of step %d' % (n, sj) for sj, n, t, tc in kept if not torch.equal(t, tc)]
         rec.update(x=x.tolist(), u=uu.tolist(), cost=cost.tolist(), t=int(system.systime))
         for n, t in (('x', x), ('u', uu), ('cost', cost)):
-            kept.append([si, n, t, t.clone()])
+            kept.append([si, n, t, t.detach().clone()])
         prev = dict(x0=x0, u=u, ret=uu)
         recs.append(rec)
     return recs, P
+
+
+def session_cfg(case, si):
+    out = cfg_text(case['P'])[2:-1]
+    out = [out] if out else []
+    if case.get('gradc'):
+        out.append('Q / p requiring grad: %s' % ','.join(case['gradc']))
+    ta = case.get('twin_at')
+    if ta and ta['step'] <= si:
+        out.append('the solver object was replaced by a %s twin of itself before solve %d' % (ta['how'], ta['step'] + 1))
+    return (' [' + '; '.join(out) + ']') if out else ''
 
 
 def judge_session(case, rng=None, note=None):
     """the property on every solve of a session: None | (key, text, index of the failing step)"""
     api = case.get('api', 'lqr')
     fn = 'MPC.forward' if api == 'mpc' else 'LQR.forward'
-    recs, P = run_session(case)
+    try:
+        recs, P = run_session(case)
+    except Exception as e:      # noqa  (e.g. no twin of the object can be made: report the input)
+        return ('%s:%s:raises' % (fn, case['P']['kind']), 'the session%s stopped outside the solver calls: %s: %s'
+                % (session_cfg(case, len(case['steps'])), type(e).__name__, str(e)[:200]), len(case['steps']) - 1)
     for rec in recs:
         si, S, tb = rec['step'], rec['S'], rec['tb']
-        head = 'solve %d of %d on one %s object (%s): ' % (si + 1, len(case['steps']), 'MPC' if api == 'mpc' else 'LQR', describe_step(case['steps'][si]))
+        head = 'solve %d of %d on one %s object%s (%s): ' % (si + 1, len(case['steps']), 'MPC' if api == 'mpc' else 'LQR', session_cfg(case, si), describe_step(case['steps'][si]))
         if 'raised' in rec:
             return ('%s:%s:raises' % (fn, P['kind']), head + 'raised %s on a valid problem' % rec['raised'], si)
         for bi in range(len(S['x0'])):
@@ -583,8 +716,39 @@ EDITS = [dict(op='add', a=0.5), dict(op='add', a=-1.5), dict(op='mul', a=-2.0), 
 LAYOUTS = ['contig', 'transposed', 'strided', 'offset', 'expand0', 'expand1']
 
 
-def gen_session(rng, g, api='lqr', sizes=None, kind=None, script=None, lay=None):
-    """script: list of (x0 src, u src, u layout, edit | None); lay: layouts of A, B, c1, Q, p"""
+def gen_twin(rng):
+    return dict(how=rng.choice(TWINS), pre=rng.choice([0, 1, 2, 3, 7]), inter=rng.random() < 0.5)
+
+
+def gen_grad(rng, names=('x0', 'u', 'Q', 'p'), modes=('grad', 'grad', 'grad', 'no_grad', 'inference')):
+    d = dict((n, True) for n in names if rng.random() < 0.5)
+    if not d:
+        d[rng.choice(names[:2])] = True
+    d['mode'] = rng.choice(modes)
+    return d
+
+
+def gen_extra(rng, nsteps):
+    """twin / autograd configuration of a session: dict(twin, pgrad, gradc, twin_at, sgrads)"""
+    ex = dict(twin=None, pgrad=[], gradc=[], twin_at=None, sgrads=[None] * nsteps)
+    r = rng.random()
+    if r < 0.4:
+        ex['twin'] = gen_twin(rng)
+    elif r < 0.6 and nsteps >= 2:
+        ex['twin_at'] = dict(step=rng.randint(1, nsteps - 1), how=rng.choice(TWINS[:3]))
+    if rng.random() < 0.6:
+        if not ex['twin_at']:
+            ex['pgrad'] = [n for n in ('A', 'B', 'c1') if rng.random() < 0.3]
+            ex['gradc'] = [n for n in ('Q', 'p') if rng.random() < 0.3]
+        ex['sgrads'] = [gen_grad(rng, ('x0', 'u'), ('grad', 'grad', 'no_grad')) if rng.random() < 0.7 else None for _ in range(nsteps)]
+    if ex['twin_at']:       # objects holding tensors with an autograd graph cannot be copied: solves before the copy run under no_grad
+        for i in range(ex['twin_at']['step']):
+            ex['sgrads'][i] = dict(ex['sgrads'][i] or {}, mode='no_grad')
+    return ex
+
+
+def gen_session(rng, g, api='lqr', sizes=None, kind=None, script=None, lay=None, extra=None):
+    """script: list of (x0 src, u src, u layout, edit | None); lay: layouts of A, B, c1, Q, p; extra: see gen_extra"""
     torch = classes()['torch']
     if sizes is None:
         sizes = (1 if api == 'mpc' else rng.randint(1, 3), rng.randint(1, 4), rng.randint(1, 3), rng.choice([1, 2, 2, 3, 4, 5, 6, 8]))
@@ -596,6 +760,8 @@ def gen_session(rng, g, api='lqr', sizes=None, kind=None, script=None, lay=None)
             for name in ('A', 'B', 'c1', 'Q', 'p'):
                 if rng.random() < 0.5:
                     lay[name] = rng.choice(LAYOUTS)
+    if S0['tile'] and lay.get('Q') == 'expand1':
+        lay['Q'] = 'expand0'          # a tiled Q is [batch, n, n]: stride 0 along dim 1 would repeat one ROW (not PD, outside the property)
     if script is None:
         script = [('new', rng.choice(['none', 'new', 'new']), rng.choice(LAYOUTS), None)]
         for j in range(rng.choice([1, 2, 2, 3])):
@@ -603,6 +769,12 @@ def gen_session(rng, g, api='lqr', sizes=None, kind=None, script=None, lay=None)
                            rng.choice(['none', 'new', 'same', 'obj', 'obj-edit', 'obj-edit', 'ret', 'ret-edit', 'ret-edit', 'ret-copy']),
                            rng.choice(LAYOUTS), None))
     steps = []
+    if extra is None:
+        extra = gen_extra(rng, len(script)) if rng.random() < 0.4 else {}
+    if extra.get('twin'):
+        P['twin'] = extra['twin']
+    if extra.get('pgrad'):
+        P['grad'] = extra['pgrad']
     for (xs, us, ul, ed) in script:
         x0 = (torch.randn(nb, ns, generator=g, dtype=torch.float64) * rng.choice([0.1, 1.0, 10.0])).tolist()
         uv = (torch.randn(nb, T, nc, generator=g, dtype=torch.float64) * rng.choice([0.1, 1.0, 10.0])).tolist()
@@ -613,8 +785,15 @@ def gen_session(rng, g, api='lqr', sizes=None, kind=None, script=None, lay=None)
             st['x0']['edit'] = rng.choice(EDITS)
         if us.endswith('-edit'):
             st['u']['edit'] = ed or rng.choice(EDITS)
+        if (extra.get('sgrads') or [None] * len(script))[len(steps)]:
+            st['grad'] = extra['sgrads'][len(steps)]
         steps.append(st)
-    return dict(kind='session', api=api, P=P, T=T, Q=S0['Q'], p=S0['p'], tile=S0['tile'], lay=lay, steps=steps, mpc_steps=rng.randint(1, 5))
+    case = dict(kind='session', api=api, P=P, T=T, Q=S0['Q'], p=S0['p'], tile=S0['tile'], lay=lay, steps=steps, mpc_steps=rng.randint(1, 5))
+    if extra.get('gradc'):
+        case['gradc'] = extra['gradc']
+    if extra.get('twin_at'):
+        case['twin_at'] = extra['twin_at']
+    return case
 
 
 # scripts of the directed block: every source of x_init / u_traj, every layout of u_traj, after every kind of history
@@ -964,14 +1143,29 @@ def run(ctx):
         if sizes is None and not ctx.thorough and rng.random() < 0.6:
             sizes = (rng.randint(1, 3), rng.randint(1, 4), rng.randint(1, 4), rng.randint(1, 7))
         P, (nb, ns, nc, T) = gen_general(rng, g, sizes, kind)
-        system = build_system(P)
+        if k % 4 == 1:
+            P['twin'] = gen_twin(rng)
+        if k % 5 == 2:
+            P['grad'] = [n for n in ('A', 'B', 'c1') if rng.random() < 0.6] or ['A']
+        ctx.count('general:system-object:%s' % (P['twin']['how'] + '-twin' if P.get('twin') else 'built'))
+        try:
+            system = build_system(P)
+        except Exception as e:      # noqa
+            ctx.violation('LQR.forward:%s:raises' % P['kind'], 'no system object%s: %s: %s' % (cfg_text(P), type(e).__name__, str(e)[:160]),
+                          dict(kind='general', P=P, S=gen_solve(rng, g, nb, ns, nc, T)))
+            continue
         nsolve = rng.choice([1, 2, 3])
         for j in range(nsolve):
+            if j > 0:
+                use_original(system, j)
             if j > 0 and rng.random() < 0.5:
                 system.reset(rng.choice([0, 0, rng.randint(1, 30)]))      # arbitrary time counters
             elif j == 0 and rng.random() < 0.25:
                 system.reset(rng.randint(1, 30))
             S = gen_solve(rng, g, nb, ns, nc, T)
+            if (k + j) % 3 == 0:
+                S['grad'] = gen_grad(rng)
+            ctx.count('general:autograd:%s' % ('plain' if not S.get('grad') else S['grad']['mode'] + ':' + '+'.join(n for n in ('x0', 'u', 'Q', 'p') if S['grad'].get(n))))
             work += nb * T * (ns + nc) ** 3
             tb = int(system.systime)
             r = run_lqr(system, S)
@@ -983,7 +1177,7 @@ def run(ctx):
             ctx.count('general:dims:%dx%d' % (ns, nc))
             ctx.traces += 1
             if 'raised' in r:
-                ctx.violation('LQR.forward:%s:raises' % P['kind'], 'LQR.forward raised %s on a valid problem (nb,ns,nc,T)=%s' % (r['raised'], (nb, ns, nc, T)), case)
+                ctx.violation('LQR.forward:%s:raises' % P['kind'], 'LQR.forward raised %s on a valid problem (nb,ns,nc,T)=%s%s' % (r['raised'], (nb, ns, nc, T), cfg_text(P, S)), case)
                 break
             exp_t = expected_time(P['kind'], tb, T)
             if r['t'] != exp_t:
@@ -992,7 +1186,7 @@ def run(ctx):
                 fails, meas = check_item(case['P'], S, bi, r['x'], r['u'], r['cost'], rng=rng)
                 note_meas(meas)
                 if fails:
-                    ctx.violation(classify(P, S, tb, fails), 'batch item %d: ' % bi + '; '.join(t for _, t in fails[:3]), case)
+                    ctx.violation(classify(P, S, tb, fails), 'batch item %d%s: ' % (bi, cfg_text(P, S)) + '; '.join(t for _, t in fails[:3]), case)
                     break
             if r.get('mutated'):
                 ctx.violation('mutation:LQR.forward', 'LQR.forward changed its argument(s) %s in place' % ', '.join(r['mutated']), case)
@@ -1003,6 +1197,10 @@ def run(ctx):
         kind = 'lti' if k % 5 else 'ltv'
         P, (nb, ns, nc, T) = gen_general(rng, g, (1, rng.randint(1, 4), rng.randint(1, 3), rng.randint(1, 6)), kind)
         S = gen_solve(rng, g, 1, ns, nc, T, tile=False)
+        if k % 3 == 1:
+            P['twin'] = gen_twin(rng)
+        if k % 3 == 2:
+            S['grad'] = gen_grad(rng)
         case = dict(kind='mpc-linear', P=P, S=S, steps=rng.randint(1, 10))
         ctx.case(('mpc-linear', k, ns, nc, T), nontrivial=T >= 2, branch='mpc-linear:' + kind)
         ctx.traces += 1
@@ -1049,6 +1247,29 @@ def run(ctx):
     for k in range(ctx.scale(36, 300)):
         do_session(gen_session(rng, g, 'mpc' if k % 4 == 3 else 'lqr'), 'random')
     lap('sessions')
+    # ------------------------------------------------------------------ 7. twins of the system / solver object, autograd state of the arguments
+    plain2 = [('new', 'new', 'contig', None), ('same', 'ret', 'contig', None)]
+    plain3 = plain2 + [('new', 'none', 'contig', None)]
+    k = 0
+    for how in TWINS:
+        for api, kind in (('lqr', 'ltv'), ('mpc', 'ltv'), ('lqr', 'lti')):
+            k += 1
+            sz = (1 if api == 'mpc' else 1 + k % 3, 1 + k % 3, 1 + k % 2, 3 + k % 4)
+            ex = dict(twin=dict(how=how, pre=(0, 2, 5)[k % 3], inter=bool(k % 2)))
+            do_session(gen_session(rng, g, api, sizes=sz, kind=kind, script=plain2, lay={}, extra=ex), 'twin-' + how)
+            if how != 'state_dict' and kind == 'ltv':
+                ex = dict(twin_at=dict(step=1 + k % 2, how=how))
+                do_session(gen_session(rng, g, api, sizes=sz, kind=kind, script=plain3, lay={}, extra=ex), 'solver-twin-' + how)
+    GR = [dict(x0=True), dict(u=True), dict(x0=True, u=True), {}]
+    for k, (flags, pgrad, gradc) in enumerate([(GR[0], [], []), (GR[1], [], []), (GR[2], [], []), (GR[3], ['A', 'B', 'c1'], []), (GR[3], [], ['Q', 'p']),
+                                               (GR[2], ['A', 'B', 'c1'], ['Q', 'p']), (GR[0], ['B'], ['p']), (GR[1], ['A'], ['Q'])]):
+        for api in ('lqr', 'mpc'):
+            sz = (1 if api == 'mpc' else 1 + k % 3, 1 + (k + 1) % 3, 1 + k % 2, (3, 4, 6, 5)[k % 4])
+            order = [dict(flags, mode='grad'), dict(flags, mode='no_grad'), None]
+            order = order[k % 3:] + order[:k % 3]
+            ex = dict(pgrad=pgrad, gradc=gradc, sgrads=order)
+            do_session(gen_session(rng, g, api, sizes=sz, kind='ltv' if k % 2 else 'lti', script=plain3, lay={}, extra=ex), 'autograd')
+    lap('twins-autograd')
     ctx.notes.append('seconds per section: %s' % tsec)
     ctx.notes.append('worst measurements (units: feas in eps, others relative): %s' % worst)
 
@@ -1134,14 +1355,18 @@ def check_case(case):
         return None
     if k == 'general':
         P, S = case['P'], case['S']
-        r = run_lqr(build_system(P), S)
+        try:
+            system = build_system(P)
+        except Exception as e:      # noqa
+            return ('LQR.forward:%s:raises' % P['kind'], 'no system object%s: %s: %s' % (cfg_text(P), type(e).__name__, str(e)[:160]))
+        r = run_lqr(system, S)
         if 'raised' in r:
-            return ('LQR.forward:%s:raises' % P['kind'], 'LQR.forward raised %s' % r['raised'])
+            return ('LQR.forward:%s:raises' % P['kind'], 'LQR.forward raised %s%s' % (r['raised'], cfg_text(P, S)))
         for bi in range(len(S['x0'])):
             fails, _ = check_item(P, S, bi, r['x'], r['u'], r['cost'])
             if fails:
                 return (classify(P, S, P.get('t0', 0), fails),
-                        'system time %d before the solve, batch item %d: %s' % (P.get('t0', 0), bi, '; '.join(t for _, t in fails[:3])))
+                        'system time %d before the solve%s, batch item %d: %s' % (P.get('t0', 0), cfg_text(P, S), bi, '; '.join(t for _, t in fails[:3])))
         if r.get('mutated'):
             return ('mutation:LQR.forward', 'LQR.forward changed its argument(s) %s in place (bit-for-bit comparison with a snapshot)' % ', '.join(r['mutated']))
         return None
@@ -1164,16 +1389,19 @@ def check_case(case):
         return None
     if k == 'mpc-linear':
         P, S = case['P'], case['S']
-        system = build_system(P)
-        mpc = pp.module.MPC(system, T64(S['Q']), T64(S['p']), S['T'], stepper=ReduceToBason(steps=case.get('steps', 10)))
+        gr = S.get('grad') or {}
         try:
-            x, u, cost = mpc(1, T64(S['x0']), None if S.get('u') is None else T64(S['u']))
+            system = build_system(P)
+            with grad_ctx(gr.get('mode', 'grad')):
+                mpc = pp.module.MPC(system, set_grad(T64(S['Q']), gr.get('Q')), set_grad(T64(S['p']), gr.get('p')), S['T'],
+                                    stepper=ReduceToBason(steps=case.get('steps', 10)))
+                x, u, cost = mpc(1, set_grad(T64(S['x0']), gr.get('x0')), None if S.get('u') is None else set_grad(T64(S['u']), gr.get('u')))
         except Exception as e:      # noqa
-            return ('MPC.forward:%s:raises' % P['kind'], 'MPC.forward raised %s: %s' % (type(e).__name__, str(e)[:120]))
+            return ('MPC.forward:%s:raises' % P['kind'], 'MPC.forward raised %s: %s%s' % (type(e).__name__, str(e)[:120], cfg_text(P, S)))
         fails, _ = check_item(P, S, 0, x.tolist(), u.tolist(), cost.tolist())
         if fails:
             key = classify(P, S, 0, fails, mpc=True)
-            text = 'MPC on a linear %s system (fresh object): %s' % (P['kind'], '; '.join(t for _, t in fails[:3]))
+            text = 'MPC on a linear %s system (fresh object)%s: %s' % (P['kind'], cfg_text(P, S), '; '.join(t for _, t in fails[:3]))
             return (key, text)
         return None
     if k == 'mpc-nonlinear':
